@@ -456,10 +456,11 @@ def bld_parse_trace(trace):
         if s.startswith("!"):
             out.append(("", [], [], s))
             continue
-        if s.startswith("G="):
+        if s.startswith("G=") or s.startswith("H="):
             v = s[2:].split("!")[0]
             rest = s[2 + len(v):]
-            bad = {"early": "!graceful-stop-completed-with-connections-in-progress", "never": "!graceful-stop-never-completed"}.get(v, "")
+            bad = {"early": "!graceful-stop-completed-with-connections-in-progress",
+                   "never": "!graceful-stop-never-completed (not at shutdown_timeout either)"}.get(v, "")
             out.append(("G", [], [], bad + rest))
             continue
         m = re.match(r"^(\S+?)=([^/]*)/a([\d.]*)(.*)$", s)
